@@ -2533,6 +2533,15 @@ bool CanettiGennaroJareckiKrawczykRabinDKG::Refresh
 		err << "DKG(" << label << "): P_" << idx2dkg[i_in] << ": update commitments (C_ik's) of { ";
 		for (std::vector<size_t>::iterator it = x_zvss->QUAL.begin(); it != x_zvss->QUAL.end(); ++it)
 		{
+			if (std::find(x_rvss->QUAL.begin(), x_rvss->QUAL.end(), *it) == x_rvss->QUAL.end())
+			{
+				// a party that holds no qualified sharing of $x$ does not take part in the refresh
+				mpz_sub(x_i, x_i, x_zvss->s_ji[dkg2idx[*it]][i_in]);
+				mpz_mod(x_i, x_i, q);
+				mpz_sub(xprime_i, xprime_i, x_zvss->sprime_ji[dkg2idx[*it]][i_in]);
+				mpz_mod(xprime_i, xprime_i, q);
+				continue;
+			}
 			err << "P_" << *it << " ";
 			assert((*it < n));
 			assert((x_rvss->t == x_zvss->t));
@@ -2549,7 +2558,10 @@ bool CanettiGennaroJareckiKrawczykRabinDKG::Refresh
 		// Players update the set of non-disqualified players.
 		QUAL.clear();
 		for (size_t j = 0; j < x_zvss->QUAL.size(); j++)
-			QUAL.push_back(x_zvss->QUAL[j]);
+		{
+			if (std::find(x_rvss->QUAL.begin(), x_rvss->QUAL.end(), x_zvss->QUAL[j]) != x_rvss->QUAL.end())
+				QUAL.push_back(x_zvss->QUAL[j]);
+		}
 
 		// Players erase all secret information aside from shares $x_i$ and $x\prime_i$.
 		x_zvss->EraseSecrets();
